@@ -30,7 +30,7 @@ def impl_obs(cls, out, val):
     return f"({code}%N, {vlib.coq_str(unesc(out))}, {vlib.coq_str(unesc(val)) if code == 0 else vlib.coq_str('')})"
 
 
-def run_stream(ctx, progs, levels="0,1,2,3", gc=None):
+def run_stream(ctx, progs, levels="0,1,2,3", gc=None, passes=None):
     """Runs hx_ast on the programs; returns dict i -> {"ast": {...}, "run": {...}, "front": err}."""
     ok, paths, log = vlib.harness_build(["hx_ast"])
     if not ok:
@@ -44,6 +44,8 @@ def run_stream(ctx, progs, levels="0,1,2,3", gc=None):
     cmd = [paths["hx_ast"], "--file", f, "--opts", levels]
     if gc:
         cmd += ["--gc-mode", str(gc[0]), "--gc-k", str(gc[1])]
+    if passes:
+        cmd += ["--passes", passes]
     rc, out = vlib.sh(cmd, timeout=1800)
     os.remove(f)
     res = collections.defaultdict(lambda: {"ast": {}, "run": {}, "front": None})
